@@ -78,6 +78,10 @@ func (e *env) common(r interface{ Intn(int) int }) {
 		e.ratio = e.p("ratio", pick(vt.Rand(), 1, 30, 50, 100))
 		e.p("expiry", 1)
 	}
+	if r.Intn(5) == 0 {
+		e.ackQ = true
+		e.p("ackq", 1)
+	}
 }
 
 func randOutcome(r interface{ Intn(int) int }) int {
@@ -95,6 +99,7 @@ func init() {
 	registerFamily("burst", []string{"C01", "C02", "C03", "C05", "C06", "C07", "C16", "C17", "C18"}, func(e *env) {
 		r := vt.Rand()
 		e.common(r)
+		e.useGen = r.Intn(4) == 0 // single jobs are submitted without an id: the generator names them
 		e.mkWorker()
 		if r.Intn(2) == 0 {
 			e.drainErrs()
